@@ -1022,6 +1022,10 @@ func DecodeCashAddress(str string) (string, []byte, error) {
 
 	// Decode values.
 	valuesSize := len(str) - 1 - prefixSize
+	// The payload must at least hold the eight checksum characters.
+	if valuesSize < 8 {
+		return "", nil, errors.New("address payload is too short")
+	}
 	values := make([]byte, valuesSize)
 	for i := 0; i < valuesSize; i++ {
 		c := str[i+prefixSize+1]
